@@ -222,7 +222,9 @@ func (e *ev) use(n *N) {
 		if !ok {
 			fail("use: no block " + pr[0])
 		}
+		// the block is imported under its alias only
 		blocks[pr[1]] = b
+		delete(blocks, pr[0])
 	}
 	l := len(e.chain)
 	if l < 2 {
